@@ -69,9 +69,13 @@ def err_sites(body, variant=None, adt=r"error::SignatureError$"):
     return body.aggregates(adt=adt, variant=variant)
 
 
-def result_aggs(body, variant):
-    """`Result::Ok{..}` / `Result::Err{..}` aggregate constructions."""
-    return body.aggregates(adt=r"^std::result::Result$", variant=variant)
+def result_aggs(body, variant, own_return=True):
+    """`Result::Ok{..}` / `Result::Err{..}` constructions; by default only those written to the function's own return
+    place (a helper that was inlined writes its result to a temporary)."""
+    out = body.aggregates(adt=r"^std::result::Result$", variant=variant)
+    if own_return:
+        out = [x for x in out if x[2]["place"]["local"] == 0 and not x[2]["place"]["proj"]]
+    return out
 
 
 def guard_conditions(body, block):
@@ -397,7 +401,7 @@ def root_local(body, operand, depth=12):
         return l
     while depth > 0:
         depth -= 1
-        if body.names.get(l):
+        if body.names.get(l) and not body.locals[l].get("inlined_param"):
             return l
         ds = [d for d in body.defs().get(l, []) if d["kind"] != "mutcall"]
         if len(ds) != 1 or ds[0]["kind"] != "assign" or ds[0]["stmt"]["rv"]["k"] != "use":
